@@ -4,8 +4,8 @@ import ast
 from ..index import u, call_name, call_attr, walk_local
 from .. import flow
 from ..fold import try_fold
-from ..util import stmts_with_env, calls_with_env, assignments_to, single_def
-from .common import method, guarded_by_raise, has_atom, comp_signature, unconditional_in
+from ..util import stmts_with_env, calls_with_env, assignments_to, single_def, param_names
+from .common import method, guarded_by_raise, has_atom, comp_signature, comp_element, unconditional_in
 
 DSSP = 'vermouth/dssp/dssp.py'
 MARTINI_SS = set('FEH123TSC')
@@ -127,8 +127,8 @@ def run(ck):
         nres_names = set()
         if isinstance(loop.target, ast.Tuple) and isinstance(it, ast.Call) and call_name(it) == 'zip' and len(it.args) == 2:
             s2, f2 = comp_signature(rs, it.args[1])
-            d2 = single_def(rs, u(it.args[1])) if isinstance(it.args[1], ast.Name) else it.args[1]
-            if s2 == src and f2 == filt and d2 is not None and 'len(list(' in u(d2) and '.iter_residues()))' in u(d2):
+            e2 = comp_element(rs, it.args[1]) or ''
+            if s2 == src and f2 == filt and e2.startswith('len(list(') and e2.endswith('.iter_residues()))'):
                 nres_names.add(u(loop.target.elts[1]))
         amounts_ok = True
         order_ok = True
@@ -209,6 +209,10 @@ def run(ck):
         cp = single_def(ad, 'clean_pos')
         ok = args == ['molecule', 'attribute', 'secstructs'] and sec is not None and u(sec) == 'callable(system)' and cp is not None and \
             u(cp) == 'molecule.subgraph(filter_minimal(molecule, selector=selector_has_position))' and 'system.add_molecule(clean_pos)' in u(ad)
+    # only proteins are annotated, and "protein" is said of the molecule that gets annotated (not of its positioned part: a ligand without coordinates is filtered out of that)
+    prot_ok = len(calls) == 1 and flow.implies(calls[0][2], ('atom', ('truth', 'is_protein({})'.format(param_names(ad)[0]))))[0]
+    ck.ob('PROV-read-back', mod.loc(ad), prot_ok, 'annotate_dssp annotates only when the molecule itself is a protein (`is_protein({})` holds on the way to the assignment)'.format(param_names(ad)[0]),
+          key='PROV-read-back|annotate_dssp|protein-test')
     ck.ob('PROV-read-back', mod.loc(ad), ok, 'annotate_dssp assigns the sequence computed for the positioned atoms of this very molecule to this molecule through '
           'annotate_residues_from_sequence (whose length test turns a dropped residue into an error, not a shift)', key='PROV-read-back|annotate_dssp')
     # every consumer of "the k-th residue" uses the same residue order
